@@ -58,6 +58,7 @@ func (s *BoltStore) Get(name enc.Name, prefix bool) (wire []byte, err error) {
 			c := bucket.Cursor()
 			iter := 1000
 			maxVer := uint64(0)
+			found := false
 			for k, v := c.Seek(key); k != nil && bytes.HasPrefix(k, key); k, v = c.Next() {
 				if iter--; iter <= 0 {
 					// checked too many keys ... give up
@@ -69,8 +70,10 @@ func (s *BoltStore) Get(name enc.Name, prefix bool) (wire []byte, err error) {
 					continue
 				}
 				ver := binary.BigEndian.Uint64(v[:8])
-				if ver > maxVer {
+				if !found || ver > maxVer {
 					wire = v[8:]
+					maxVer = ver
+					found = true
 				}
 			}
 		} else {
